@@ -24,11 +24,21 @@ Definition mat_eqb (A B : mat Q) : bool := forallb2 q_list_eqb A B.
 
 Definition tapes_ok (Xs : list (mat Q)) (ns : list (list Q)) : bool := forallb2 (norms_okb Qops tape_tol) Xs ns.
 
-(* value of the implementation's matching in the model, and the brute-force optimum *)
-Definition cong_values (absv : bool) (As Bs : list (mat Q)) (nas nbs : list (list Q)) (p : list nat) : Q * Q :=
+(* The r! brute force runs on a copy of the congruence matrix rounded DOWN to multiples of 2^-80 (power-of-two
+   denominators: Qred is then cheap; with the exact entries -- denominators are products of 53-bit norms -- every one
+   of the r! * r additions costs a quadratic binary gcd on ~1500-bit numbers).  The rounding moves every score by
+   less than 2^-80, far inside the comparison tolerance 1e-9. *)
+Definition qdy (x : Q) : Q :=
+  Qred (Qmake (Z.div (Qnum x * Zpos (2 ^ 80)%positive) (Zpos (Qden x))) (2 ^ 80)%positive).
+Definition mdy (M : mat Q) : mat Q := map (map qdy) M.
+
+(* exact value of the implementation's matching in the model; the same on the rounded matrix; the brute-force
+   optimum on the rounded matrix *)
+Definition cong_values (absv : bool) (As Bs : list (mat Q)) (nas nbs : list (list Q)) (p : list nat) : Q * Q * Q :=
   let r := ncols (hd [] As) in
   let C := cong_all Qops absv r (zip_modes As Bs nas nbs) in
-  (score Qops r C p, score Qops r C (best_perm Qops r C)).
+  let Cd := mdy C in
+  (score Qops r C p, score Qops r Cd p, score Qops r Cd (best_perm Qops r Cd)).
 
 Definition agree_cong absv As Bs nas nbs (impl : res (Q * list nat)) : bool :=
   match impl with
@@ -37,10 +47,10 @@ Definition agree_cong absv As Bs nas nbs (impl : res (Q * list nat)) : bool :=
     match congruence Qops absv As Bs nas nbs (fun _ => p) with
     | Err => false
     | Ok _ =>
-      let '(vm, vbest) := cong_values absv As Bs nas nbs p in
+      let '(vm, vd, vbest) := cong_values absv As Bs nas nbs p in
       tapes_ok As nas && tapes_ok Bs nbs && is_permb (ncols (hd [] As)) p &&
       qclose tol tol v vm &&          (* returned value = mean congruence of the returned matching *)
-      qclose tol tol vm vbest         (* the returned matching is optimal among all r! (ties by value) *)
+      qclose tol tol vd vbest         (* the returned matching is optimal among all r! (ties by value) *)
     end
   end.
 
@@ -51,9 +61,9 @@ Definition agree_permute ref fs w nas nbs (impl : res (list Q * list (mat Q) * l
     match cp_permute_factors Qops ref fs w nas nbs (fun _ => p) with
     | Err => false
     | Ok (wm, fsm, _) =>
-      let '(vm, vbest) := cong_values true ref fs nas nbs p in
+      let '(_, vd, vbest) := cong_values true ref fs nas nbs p in
       tapes_ok ref nas && tapes_ok fs nbs && is_permb (ncols (hd [] ref)) p &&
-      q_list_eqb wm w' && forallb2 mat_eqb fsm fs' && qclose tol tol vm vbest
+      q_list_eqb wm w' && forallb2 mat_eqb fsm fs' && qclose tol tol vd vbest
     end
   end.
 
